@@ -8,8 +8,8 @@ for i in "$@"; do
   D=/tmp/wt/$P-seed$i.diff
   cd $WT && git checkout -q -- . && git apply $D || { echo "$P seed$i: APPLY-FAIL"; continue; }
   if cargo test --workspace --no-fail-fast --offline > /tmp/wt/$P-confirm$i-suite.log 2>&1; then S=pass; else S=FAIL; fi
-  cd $DEMO; if cargo test --offline --test seed$i > /tmp/wt/$P-confirm$i-demo-with.log 2>&1; then W=pass; else W=fail; fi
+  cd $DEMO; if cargo test --offline --test seed$i $EXTRA > /tmp/wt/$P-confirm$i-demo-with.log 2>&1; then W=pass; else W=fail; fi
   cd $WT && git checkout -q -- .
-  cd $DEMO; if cargo test --offline --test seed$i > /tmp/wt/$P-confirm$i-demo-without.log 2>&1; then O=pass; else O=fail; fi
+  cd $DEMO; if cargo test --offline --test seed$i $EXTRA > /tmp/wt/$P-confirm$i-demo-without.log 2>&1; then O=pass; else O=fail; fi
   echo "$P seed$i: suite_with_change=$S demo_with_change=$W demo_without_change=$O"
 done
